@@ -1,5 +1,6 @@
 import FgaVerif.Proofs.Listener
 import FgaVerif.Proofs.AList
+import FgaVerif.Proofs.ErasePos
 /-!
 # C03 — every grammatical layout of a model parses to exactly the model written
 
@@ -10,6 +11,14 @@ restriction list, redundant parentheses of any depth, keyword tokens used as ide
 listener port, walking the parse tree ANTLR builds for the CST, records exactly the denotation of
 the CST — so layout and parenthesisation never change the result, operand order and nesting are
 preserved, and the restrictions are kept in order.
+
+`real_declaration_denotes` carries this over to **real parse trees**: for any tree `t` — with ANTLR's
+line/column positions — that passes the decidable test `isEmbedding` (its position-erased form is
+literally `Decl.tree d` for a well-formed CST `d`, found by an unverified reader and confirmed by a
+verified equality test), walking `t` itself yields, up to the positions recorded in the error log,
+the result determined by `d`'s name, denotation and restrictions (the walk commutes with erasing
+positions, `Proofs/ErasePos.lean`).  The driver evaluates `isEmbedding` on every relation declaration
+of every error-free real parse tree; the evidence reports how many pass (all of them, so far).
 
 What is *not* proved: that the real lexer/parser maps the text of a CST to that parse tree (ANTLR is
 a parameter).  That link is executed on every run: an independent grammar-mirroring renderer writes
@@ -27,6 +36,33 @@ theorem listener_denotes (pe : Option Bool) (d : Decl) (hd : d.body.wf = true) (
     (m : TypeMeta) (htd : st.currentTypeDef = some td) (hm : td.md = some m) :
     walk pe (Decl.tree d) st = .ok (declResult pe d st td m) :=
   walk_decl pe d hd st td m htd hm
+
+/-- **real parse trees**: a relation-declaration subtree of a real parse tree (positions and all) that
+    passes the embedding test yields — up to the positions in the error log — the result that the
+    well-formed CST `d` it embeds determines -/
+theorem real_declaration_denotes (pe : Option Bool) (t : Tree) (d : Decl) (h : embeddingOf t = some d)
+    (st : LState) (td : TypeDef) (m : TypeMeta) (htd : st.currentTypeDef = some td) (hm : td.md = some m) :
+    stripR (walk pe t st) = .ok (stripSt (declResult pe d (stripSt st) td m)) := by
+  obtain ⟨hwf, htree⟩ := embeddingOf_sound t d h
+  rw [walk_strip pe t st (stripSt st) (stripSt_idem st).symm, ← htree,
+    walk_decl pe d hwf (stripSt st) td m htd hm]
+  rfl
+
+/-- in particular the relation recorded for it is the CST's denotation, under the CST's name -/
+theorem real_declaration_relation (pe : Option Bool) (t : Tree) (d : Decl) (h : embeddingOf t = some d)
+    (st : LState) (td : TypeDef) (m : TypeMeta) (htd : st.currentTypeDef = some td) (hm : td.md = some m) :
+    ∃ st', walk pe t st = .ok st' ∧
+      st'.currentTypeDef = some (declTypeDef pe d (stripSt st) td m) := by
+  have := real_declaration_denotes pe t d h st td m htd hm
+  cases hw : walk pe t st with
+  | error p => rw [hw] at this; simp [stripR] at this
+  | ok st' =>
+    rw [hw] at this
+    simp only [stripR, Except.ok.injEq] at this
+    refine ⟨st', rfl, ?_⟩
+    have h2 : (stripSt st').currentTypeDef = (stripSt (declResult pe d (stripSt st) td m)).currentTypeDef := by
+      rw [this]
+    simpa [stripSt, declResult_typeDef] using h2
 
 /-- **Layout and parentheses never change the result.**  Two declarations that agree on the name,
     the denotation and the declared restrictions — in particular two renderings of one definition
